@@ -30,6 +30,8 @@ def spec_row(b):
 
 def reg_case(res, tie, b, policy, c, xi=0):
     """registration (fmt none) with flags byte b under (require_up, require_uv)"""
+    if len(policy) == 3:
+        return reg_case_fmt(res, tie, b, policy[:2], policy[2])
     require_up, require_uv = policy
     row = spec_row(b)
     cose = c.cose() if row["at"] else None
@@ -58,6 +60,36 @@ def reg_case(res, tie, b, policy, c, xi=0):
                                "match": {"op": "verify_reg", "flags": b, "require_up": require_up, "require_uv": require_uv}})
 
 
+def reg_case_fmt(res, tie, b, policy, fmt):
+    """the same table for a format with a statement (fido-u2f, packed self): the flags mean the same whatever the format"""
+    from . import _reg
+    require_up, require_uv = policy
+    row = spec_row(b)
+    if not row["at"] or row["ed"]:
+        return                      # these builders lay out attested data and no extensions
+    ch = ("p256", 1, core.ES256) if fmt == "fido-u2f" else ("p256", 0, core.ES256)
+    built = _reg.build(fmt, ch, (), flags=b)
+    if built is None:
+        return
+    req, r = built
+    e = _reg.expectation(req, r.roots, require_up=require_up, require_uv=require_uv)
+    code = cases.run_reg(r.credential, e)
+    res.evaluations += 1
+    tie.check(cases.reg_case(r.credential, e), code, label=["reg-flags", fmt, b, require_up, require_uv])
+    res.nontrivial.add(("reg", fmt, b, policy))
+    res.count(f"reg-{fmt}:" + corr.kind(code))
+    expect_accept = (row["up"] or not require_up) and (row["uv"] or not require_uv) and not (row["bs"] and not row["be"])
+    ok = (code["k"] == "accept") == expect_accept
+    if ok and code["k"] == "accept":
+        rr = code["record"]
+        ok = (rr["user_verified"] == row["uv"] and rr["credential_backed_up"] == row["bs"]
+              and rr["credential_device_type"] == ("multi_device" if row["be"] else "single_device"))
+    if not ok:
+        res.violations.append({"why": f"{fmt} registration with flags {b:#04x}, require_up={require_up}, require_uv={require_uv}: {str(code)[:200]}",
+                               "flags": b, "case": cases.reg_case(r.credential, e),
+                               "match": {"op": "verify_reg", "fmt": fmt, "flags": b, "require_up": require_up, "require_uv": require_uv}})
+
+
 def work(tasks, idx):
     res = Result()
     drv = Driver(Oracle()) if work.driver_ok else None
@@ -84,6 +116,10 @@ def work(tasks, idx):
         a = core.assertion(c, rp_id="example.com", challenge=b"\x01" * 32, origin="https://example.com", ad_override=ad)
         e = {"challenge": b"\x01" * 32, "rp_id": "example.com", "origin": "https://example.com", "public_key": c.cose(),
              "stored_count": 3, "require_uv": require_uv}
+        if require_uv and (b + ci) % 3:
+            # "required" said with another truthy value than the literal True (1, the enum member, its string): still required
+            from webauthn.helpers.structs import UserVerificationRequirement as _UVR
+            e["require_uv"] = [True, 1, _UVR.REQUIRED][(b + ci) % 3]
         code = cases.run_auth(a, e)
         res.evaluations += 1
         tie.check(cases.auth_case(a, e), code, label=["flags", b, require_uv])
@@ -115,6 +151,8 @@ def run(ctx, res):
     tasks = [(b, uv, rng.randrange(ncreds), xi) for b in range(256) for uv in (False, True) for xi in exts(b)]
     tasks += [(b, (up, uv), rng.randrange(ncreds), xi) for b in range(256) for up in (False, True) for uv in (False, True)
               for xi in exts(b)]
+    tasks += [(b, (up, uv, fmt), 0, 0) for b in range(256) if b & 0x40 and not b & 0x80 for up in (False, True) for uv in (False, True)
+              for fmt in ("fido-u2f", "packed-self")]
     work.driver_ok = ctx.driver_ok
     corr.merge(res, corr.parallel(work, tasks))
     res.exhaustive = True
